@@ -134,11 +134,31 @@ def strip_comments(src: str) -> str:
     return "".join(out)
 
 
-def grep_forbidden() -> List[str]:
-    hits = []
-    for p in sorted(LEAN.rglob("*.lean")):
-        if ".lake" in p.parts:
+def import_closure(roots: Sequence[str]) -> List[Path]:
+    """Lean source files (under lean/MlodaVerif) transitively imported by the given modules."""
+    seen: Dict[str, Path] = {}
+    todo = list(roots)
+    while todo:
+        m = todo.pop()
+        if m in seen or not m.startswith("MlodaVerif."):
             continue
+        f = LEAN / (m.replace(".", "/") + ".lean")
+        if not f.exists():
+            continue
+        seen[m] = f
+        for imp in re.findall(r"^import\s+(\S+)", strip_comments(f.read_text()), flags=re.M):
+            todo.append(imp)
+    return sorted(seen.values())
+
+
+def grep_forbidden(prop: Optional[str] = None) -> List[str]:
+    """Forbidden constructs in the Lean sources this property's theorems and driver depend on (all sources if prop is None)."""
+    if prop is None:
+        files = [p for p in sorted(LEAN.rglob("*.lean")) if ".lake" not in p.parts and ".audit" not in p.parts]
+    else:
+        files = import_closure([f"MlodaVerif.Props.{prop}", f"MlodaVerif.Drv.{prop}"])
+    hits = []
+    for p in files:
         for ln, line in enumerate(strip_comments(p.read_text()).splitlines(), 1):
             if FORBIDDEN.search(line):
                 hits.append(f"{p.relative_to(LEAN)}:{ln}: {line.strip()[:120]}")
@@ -394,7 +414,7 @@ def run_check(prop: str, tier: str, replay: Optional[str]) -> int:
 
     # 3. audit
     hard_errors: List[str] = []
-    forb = grep_forbidden()
+    forb = grep_forbidden(prop)
     if forb:
         hard_errors.append("forbidden constructs in Lean sources: " + "; ".join(forb[:5]))
     axioms: Dict[str, List[str]] = {}
